@@ -134,8 +134,14 @@ func newC09Rig(bin bool) (*c09Rig, error) {
 			{Addr: ip(2), UDPPort: 5062, TCPPort: 5063, Backends: []string{"tcp://" + ip(33) + ":5080", "tcp://" + r.pools[1] + ":5080"}}, // a dynamically resolved pool of TCP backends
 			{Addr: ip(3), UDPPort: 5064, Backends: []string{"udp://" + ip(34) + ":5080", "udp://" + ip(35) + ":5080"}},
 		},
+		// a static route whose next hop is a host-table name: every listener's loop
+		// asks the shared host table
+		Routes: []labRouteCfg{{Dests: []string{"c09-static.test"}, Protocol: "udp", NextHop: "c09-hop.test:5080"}, {Dests: []string{"c09-static2.test"}, Protocol: "udp", NextHop: "c09-hop2.test:5080"}},
+		Hosts:  [][2]string{{"c09-hop.test", ip(36)}, {"c09-hop2.test", ip(37)}},
 	}
-	for _, a := range []string{ip(31), ip(34), ip(35)} {
+	r.backendOf[ip(36)+":5080"] = c09StaticHop
+	r.backendOf[ip(37)+":5080"] = c09StaticHop2
+	for _, a := range []string{ip(31), ip(34), ip(35), ip(36), ip(37)} {
 		if err := r.udpBackend(a, 5080); err != nil {
 			return nil, err
 		}
@@ -172,6 +178,8 @@ func newC09Rig(bin bool) (*c09Rig, error) {
 	}
 	return r, nil
 }
+
+const c09StaticHop, c09StaticHop2 = 9, 10 // pseudo listen entries of the static routes' next hops
 
 type c09Plan struct {
 	Procs      int  `json:"gomaxprocs"`
@@ -225,6 +233,7 @@ func (r *c09Rig) run(plan c09Plan, tag string) c09Outcome {
 	type txn struct {
 		id     string
 		entry  int
+		want   int // listen entry whose backends must get it (c09StaticHop: the static route's hop)
 		s, e   int64
 		answer bool
 	}
@@ -286,8 +295,28 @@ func (r *c09Rig) run(plan c09Plan, tag string) c09Outcome {
 		}
 		for j := 0; j < plan.PerClient; j++ {
 			id := fmt.Sprintf("c09-%s-%d-%d", tag, ci, j)
-			wire := fmt.Sprintf("OPTIONS sip:svc.test SIP/2.0\r\nVia: %s;branch=z9hG4bK%s;rport\r\nFrom: <sip:c%d@client.example>;tag=f\r\nTo: <sip:svc@svc.test>\r\nCall-ID: %s\r\nCSeq: %d OPTIONS\r\nContent-Length: 0\r\n\r\n", via, id, ci, id, j+1)
-			t := txn{id: id, entry: entry, s: r.tick()}
+			// a fixed mix of what the listeners' loops do with a message: plain
+			// load-balancing, dialog-creating INVITEs (the backend's 200 carries a
+			// To-tag: the pin is computed on the way back), in-dialog requests of
+			// unknown dialogs (dialog identity computed, looked up, load-balanced),
+			// statically routed requests (route table and host table consulted)
+			method, ruri, to, want := "OPTIONS", "sip:svc.test", "<sip:svc@svc.test>", entry
+			switch (ci + j) % 5 {
+			case 2:
+				method = "INVITE"
+			case 3:
+				method, to = "INFO", fmt.Sprintf("\"Svc\" <sip:svc@svc.test:5060;user=phone>;tag=t%d", j)
+			case 4:
+				if !tcp {
+					// (the hop answers to the top Via over UDP: TCP clients would not hear it)
+					method, ruri, to, want = "MESSAGE", "sip:x@c09-static.test", "<sip:x@c09-static.test>", c09StaticHop
+					if (ci+j/5)%2 == 1 {
+						ruri, to, want = "sip:x@c09-static2.test", "<sip:x@c09-static2.test>", c09StaticHop2
+					}
+				}
+			}
+			wire := fmt.Sprintf("%s %s SIP/2.0\r\nVia: %s;branch=z9hG4bK%s;rport\r\nFrom: <sip:c%d@client.example>;tag=f\r\nTo: %s\r\nCall-ID: %s\r\nCSeq: %d %s\r\nContent-Length: 0\r\n\r\n", method, ruri, via, id, ci, to, id, j+1, method)
+			t := txn{id: id, entry: entry, want: want, s: r.tick()}
 			if err := send([]byte(wire)); err != nil {
 				setFail("client %d: send failed: %v", ci, err)
 				return
@@ -441,7 +470,10 @@ func (r *c09Rig) run(plan c09Plan, tag string) c09Outcome {
 			if len(at) > 1 {
 				return c09Outcome{fail: fmt.Sprintf("request %s was delivered to %d backends: %v", t.id, len(at), at)}
 			}
-			if len(at) == 1 && r.backendOf[at[0]] != t.entry {
+			if len(at) == 1 && r.backendOf[at[0]] != t.want {
+				if t.want >= c09StaticHop {
+					return c09Outcome{fail: fmt.Sprintf("request %s has a static route to %s:5080 but reached %s", t.id, map[int]string{c09StaticHop: "c09-hop.test", c09StaticHop2: "c09-hop2.test"}[t.want], at[0])}
+				}
 				return c09Outcome{fail: fmt.Sprintf("request %s was sent to listen entry %d but reached backend %s of listen entry %d", t.id, t.entry, at[0], r.backendOf[at[0]])}
 			}
 			if !soft {
@@ -464,7 +496,7 @@ func (r *c09Rig) run(plan c09Plan, tag string) c09Outcome {
 }
 
 func TestC09(t *testing.T) {
-	V.Rule("lab under the race detector: rapid draws load plans - GOMAXPROCS in {2,4,8,16}, 2-12 UDP and 1-8 TCP stop-and-wait clients spread over three listen entries of one service (shared learned-route table; UDP and TCP listeners; UDP, TCP and dynamically resolved backends), 30-250 transactions each with unique identifiers, backends that answer every request, optional membership churn through the resolver's addressResolved entry point, sparse (a change every 70-110 ms) or fast (every 100-400 us), at least one stable backend per listen entry, optional hammering of ByteArrayPool, ClientTransportMgr and DynamicHostResolver from three goroutines. Oracle: no race report, no fatal error or panic, every client finishes (no transaction waits more than 20 s unless a membership change was in flight), every request reached exactly one backend of the listen entry it was sent to (at most one while a change was in flight), every response returned to the client that sent the request. non-trivial = plan with >= 2 listeners receiving simultaneously and >= 1 membership change during traffic; distinct by plan")
+	V.Rule("lab under the race detector: rapid draws load plans - GOMAXPROCS in {2,4,8,16}, 2-12 UDP and 1-8 TCP stop-and-wait clients spread over three listen entries of one service (shared learned-route table; UDP and TCP listeners; UDP, TCP and dynamically resolved backends), 30-250 transactions each with unique identifiers in a fixed mix (OPTIONS, dialog-creating INVITE answered with a To-tag, in-dialog INFO of an unknown dialog, MESSAGE with one of two static routes whose next hops are host-table names), backends that answer every request, optional membership churn through the resolver's addressResolved entry point, sparse (a change every 70-110 ms) or fast (every 100-400 us), at least one stable backend per listen entry, optional hammering of ByteArrayPool, ClientTransportMgr and DynamicHostResolver from three goroutines. Oracle: no race report, no fatal error or panic, every client finishes (no transaction waits more than 20 s unless a membership change was in flight), every request reached exactly one backend of the listen entry it was sent to (at most one while a change was in flight), every response returned to the client that sent the request. non-trivial = plan with >= 2 listeners receiving simultaneously and >= 1 membership change during traffic; distinct by plan")
 	V.Assume("schedules are sampled by the Go scheduler under the drawn plan, not enumerated: this check can expose races, never show their absence")
 	V.Require("engine:bin (-race binary under load)", "plan with fast churn", "plan with churn", "plan with hammering", ">=2 listeners in parallel", "tcp and udp clients together")
 	rig, err := newC09Rig(false)
